@@ -43,7 +43,8 @@ def runQRF (kv : List (String × String)) : String := Id.run do
   if ents.size ≠ n * n then return "bad-op"
   if !(strat.startsWith "piv" || strat.startsWith "mgsr") then return "bad-op"
   let ptxt (p : Array Nat) := ",".intercalate (p.toList.map toString)
-  let route := "bits-" ++ ty ++ (if strat.endsWith "_expr" then "-expr-" else "-tensor-")
+  let arg := if strat.endsWith "_expr" then "expr" else if strat.endsWith "_sum" then "sum" else if strat.endsWith "_trans" then "trans" else "tensor"
+  let route := "bits-" ++ ty ++ "-" ++ arg ++ "-"
     ++ (if strat.startsWith "pivm" then "pivm" else if strat.startsWith "piv" then "pivv" else "nopiv")
   let idx := List.range (n * n)
   if ty == "double" then
